@@ -3,7 +3,7 @@ use crate::core::{guard, with_budget, Run};
 use crate::hosts;
 use crate::mv::MV;
 use crate::reval::{b, call, eval, mcall, Env, Ev, Host, E};
-use cel_interpreter::extractors::This;
+use cel_interpreter::extractors::{Arguments, This};
 use cel_interpreter::{Context, ExecutionError, Program, Value};
 use cel_parser::ast::{EntryExpr, Expr, IdedExpr};
 use serde_json::json;
@@ -112,6 +112,22 @@ fn templates() -> Vec<Tpl> {
     v
 }
 
+/// Host functions whose signature puts positional parameters in front of the `Arguments` extractor
+/// (which yields all arguments). Kept out of `templates()` so that they are explored in their own
+/// sub-space with their own failure keys.
+fn mixed_templates() -> Vec<Tpl> {
+    let mut v: Vec<Tpl> = vec![];
+    let mut t = |name: &'static str, holes: usize, f: Box<dyn Fn(Vec<E>) -> E>| v.push(Tpl { name, holes, int_valued: true, build: f });
+    t("hva1", 1, Box::new(|h| call("hva", h)));
+    t("hva2", 2, Box::new(|h| call("hva", h)));
+    t("hva3", 3, Box::new(|h| call("hva", h)));
+    t(".hva2", 3, Box::new(|h| mcall(h[0].clone(), "hva", vec![h[1].clone(), h[2].clone()])));
+    t("hpa2", 2, Box::new(|h| call("hpa", h)));
+    t("hpa3", 3, Box::new(|h| call("hpa", h)));
+    t("hav2", 2, Box::new(|h| call("hav", h)));
+    v
+}
+
 fn wrap(id: &mut i64, e: E) -> E {
     *id += 1;
     call("t", vec![li(*id), e])
@@ -129,6 +145,9 @@ pub fn model_env() -> Env {
     env.hosts.insert("ht".into(), Host::Ident);
     env.hosts.insert("_h".into(), Host::Ident);
     env.hosts.insert("hpt".into(), Host::Typed(vec!["any", "any", "any"]));
+    env.hosts.insert("hva".into(), Host::Typed(vec!["any", "args"]));
+    env.hosts.insert("hpa".into(), Host::Typed(vec!["int", "int", "args"]));
+    env.hosts.insert("hav".into(), Host::Typed(vec!["args", "any"]));
     env
 }
 
@@ -153,6 +172,21 @@ pub fn subject_ctx(env: &Env, log: &hosts::Log) -> Context<'static> {
     ctx.add_function("hpt", move |a: Value, This(this): This<Value>, c: Value| -> Result<Value, ExecutionError> {
         l.lock().unwrap().push(Ev::Call("hpt".into(), vec![MV::from_value(&a), MV::from_value(&this), MV::from_value(&c)]));
         Ok(a)
+    });
+    let l = log.clone();
+    ctx.add_function("hva", move |a: Value, Arguments(rest): Arguments| -> Result<Value, ExecutionError> {
+        l.lock().unwrap().push(Ev::Call("hva".into(), vec![MV::from_value(&a), MV::List(rest.iter().map(MV::from_value).collect())]));
+        Ok(a)
+    });
+    let l = log.clone();
+    ctx.add_function("hpa", move |a: i64, c: i64, Arguments(rest): Arguments| -> Result<Value, ExecutionError> {
+        l.lock().unwrap().push(Ev::Call("hpa".into(), vec![MV::Int(a), MV::Int(c), MV::List(rest.iter().map(MV::from_value).collect())]));
+        Ok(Value::Int(a))
+    });
+    let l = log.clone();
+    ctx.add_function("hav", move |Arguments(all): Arguments, a: Value| -> Result<Value, ExecutionError> {
+        l.lock().unwrap().push(Ev::Call("hav".into(), vec![MV::List(all.iter().map(MV::from_value).collect()), MV::from_value(&a)]));
+        Ok(Value::List(all))
     });
     // `ht` uses the This extractor: receiver if present, otherwise the first argument
     let l = log.clone();
@@ -443,6 +477,59 @@ pub fn run(run: &mut Run) {
                 let e = (t.build)(hs);
                 check(run, "level2", t.name, &e, &mut env, &ctx, &log);
             }
+        }
+    }
+
+    // ---- positional parameters mixed with the `Arguments` extractor: every leaf assignment, then every
+    //      hole either a wrapped leaf or a wrapped int-valued template over wrapped leaves
+    run.sub("mixed-arguments");
+    let mixed = mixed_templates();
+    let inner_names: &[&str] = if run.quick() { &["+", "?:", "neg", "max2", "hA1", "hp2", "size(map)", "index"] } else { &["+", "%", "?:", "neg", "index", "select", "max2", "min4", "int()", ".size", "h0", "hA1", "hA3", ".hA2", "hp2", "hv2", ".ht1", "_h1", "hpt3", "size(map)", "exists?1:0", "filter[0]"] };
+    let inner_tpls: Vec<usize> = (0..tpls.len()).filter(|&i| inner_names.contains(&tpls[i].name)).collect();
+    let mfillers = 1 + inner_tpls.len();
+    for t in mixed.iter() {
+        let total = (leaves.len() as u64).pow(t.holes as u32);
+        for code in 0..total {
+            if !run.take() {
+                continue;
+            }
+            let mut c = code;
+            let mut id = 0;
+            let mut hs = vec![];
+            for _ in 0..t.holes {
+                hs.push(wrap(&mut id, leaves[(c % leaves.len() as u64) as usize].clone()));
+                c /= leaves.len() as u64;
+            }
+            let e = wrap(&mut id, (t.build)(hs));
+            check(run, "mixed-arguments", t.name, &e, &mut env, &ctx, &log);
+        }
+        let total = (mfillers as u64).pow(t.holes as u32);
+        for code in 0..total {
+            if !run.take() {
+                continue;
+            }
+            let mut c = code;
+            let mut id = 0;
+            let mut hs = vec![];
+            let mut lc = 0usize;
+            for _ in 0..t.holes {
+                let f = (c % mfillers as u64) as usize;
+                c /= mfillers as u64;
+                if f == 0 {
+                    hs.push(wrap(&mut id, leaves[lc % leaves.len()].clone()));
+                    lc += 1;
+                } else {
+                    let it = &tpls[inner_tpls[f - 1]];
+                    let mut inner = vec![];
+                    for _ in 0..it.holes {
+                        inner.push(wrap(&mut id, leaves[lc % leaves.len()].clone()));
+                        lc += 1;
+                    }
+                    hs.push(wrap(&mut id, (it.build)(inner)));
+                }
+            }
+            let e = (t.build)(hs);
+            check(run, "mixed-arguments", t.name, &e, &mut env, &ctx, &log);
         }
     }
 
